@@ -34,6 +34,43 @@ def callee(ins):
     return ins.extra.get('callee') or ''
 
 
+_ROLE_CACHE = {}
+
+
+def ord_local(prog):
+    """name of do_reorder()'s local copy of the order head: the local that receives the element taken from order_q"""
+    k = (id(prog), 'ord')
+    if k not in _ROLE_CACHE:
+        f = prog.func('expand', 'do_reorder')
+        P = Prov(prog, f)
+        names = set()
+        for i in f.insns():
+            if i.op == 'call' and callee(i).startswith('llvm.memcpy'):
+                d, s = memcpy_dst_src(P, i)
+                if d and d.startswith('A:') and '.' not in d and s and s.startswith('V(G:expand:order_q.root)'):
+                    names.add(d[2:])
+        if len(names) != 1:
+            broken('do_reorder(): cannot identify the local copy of the order head (candidates %s)' % sorted(names))
+        _ROLE_CACHE[k] = names.pop()
+    return _ROLE_CACHE[k]
+
+
+def head_local(prog):
+    """name of do_parse()'s local header record: the local whose .hdr is handed to parse()"""
+    k = (id(prog), 'head')
+    if k not in _ROLE_CACHE:
+        f = prog.func('expand', 'do_parse')
+        P = Prov(prog, f)
+        pc = list(f.calls('parse'))
+        if len(pc) != 1:
+            broken('do_parse(): expected one call to parse()')
+        hd = P.expr(pc[0].ops[1])
+        if hd[0] != 'addr' or hd[1][0] != 'A' or path_key(hd[2]) != '.hdr':
+            broken('do_parse(): the header argument of parse() is not the .hdr of a local record')
+        _ROLE_CACHE[k] = hd[1][1]
+    return _ROLE_CACHE[k]
+
+
 def memcpy_dst_src(P, ins):
     if not callee(ins).startswith('llvm.memcpy'):
         return None, None
@@ -48,6 +85,7 @@ def memcpy_dst_src(P, ins):
 def analyse_reorder(prog):
     f = prog.func('expand', 'do_reorder')
     P = Prov(prog, f)
+    ORD = 'A:' + ord_local(prog)
     E = enumerators(f.module)
     info = {'f': f, 'crc_tests': [], 'ovf_tests': [], 'other_status_tests': []}
 
@@ -64,7 +102,7 @@ def analyse_reorder(prog):
             return None
         if ky.endswith('.crc') and 'reord_q' in ky:
             kx, ky = ky, kx
-        if not (kx.endswith('.crc') and 'reord_q' in kx and ky == 'A:ord.hdr.crc'):
+        if not (kx.endswith('.crc') and 'reord_q' in kx and ky == ORD + '.hdr.crc'):
             return None
         if pred not in ('eq', 'ne'):
             return None
@@ -90,7 +128,7 @@ def analyse_reorder(prog):
             a, b_ = strip_ext(e[2]), strip_ext(e[3])
             if a[0] == 'const':
                 a, b_ = b_, a
-            return b_ == ('const', 100000) and _load_key(a) == 'A:ord.hdr.bs100k'
+            return b_ == ('const', 100000) and _load_key(a) == ORD + '.hdr.bs100k'
         if is_blk(x) and is_lim(y):
             r = {'ugt': True, 'ule': False}.get(pred)
         elif is_lim(x) and is_blk(y):
@@ -113,7 +151,7 @@ def analyse_reorder(prog):
         c = callee(ins)
         if c.startswith('llvm.memcpy'):
             d, s = memcpy_dst_src(P, ins)
-            if d == 'A:ord' and 'order_q.root' in (s or ''):
+            if d == ORD and 'order_q.root' in (s or ''):
                 st['facts']['committed'] = True
         elif c == 'sink_write_buffer':
             st['facts']['wrote'] = True
